@@ -243,7 +243,9 @@ class Instance(Component):
                 upper_bound, "upper_bound", 0, 1_000_000_000_000_000))
         if lb > ub:
             raise ValueError(f"lower bound = {lb} > upper_bound = {ub}!")
-        dtype: Final[np.dtype] = int_range_to_dtype(min_value=0, max_value=ub)
+        # the type must hold the bound and every single matrix element
+        dtype: Final[np.dtype] = int_range_to_dtype(min_value=0, max_value=max(
+            ub, int(distances.max(initial=0)), int(flows.max(initial=0))))
         #: the scale of the problem
         self.n: Final[int] = shape[0]
         if name is None:
